@@ -159,6 +159,16 @@ Definition real (s : bytes) : pres bytes :=
   | _, [] => PErr
   end.
 
+(* f32 range (DESIGN 3, float assumptions): the [real] parser keeps the matched text; f32::from_str
+   rounds a decimal value to an INFINITE f32 exactly when it is at least f32::MAX + half an ulp
+   = 2^128 - 2^103 (round to nearest, ties to even; the significand of f32::MAX is odd).  The value is
+   integer part + fraction with 0 <= fraction < 1 and the bound is an integer, so only the integer
+   digits matter.  Validated on the crate by the (real ...) cases of props/c14.py. *)
+Definition real_int_val (t : bytes) : N :=
+  let '(_, t1) := opt_sign t in digits_val (fst (take_while is_dec_digit t1)).
+Definition F32_INF_FROM : N := 340282356779733661637539395458142568448.
+Definition real_overflow (t : bytes) : bool := F32_INF_FROM <=? real_int_val t.
+
 (* unsigned_int::<T>: digit1 then T::from_str, T = u32 / u16 / usize by [maxv] *)
 Definition unsigned_int (maxv : N) (s : bytes) : pres N :=
   let '(ds, r) := take_while is_dec_digit s in
